@@ -91,6 +91,13 @@ Section Fix.
     - unfold Tree.right_rotate in Hrot. destruct (y =? NIL) eqn:E; [discriminate|]. now apply Z.eqb_neq in E.
   Qed.
 
+  (* the root's cached maximum bounds every node's min3 *)
+  Lemma Good_root_upper h root l j : Good h root l -> In j l -> gle ggt (hmin nmin h j) (hmax h root).
+  Proof.
+    intros (s & (HR & _ & HM & _) & <-) Hj. destruct s as [|a i b]; [contradiction|].
+    simpl in HR. destruct HR as (-> & _). simpl in HM. destruct HM as (_ & _ & (U & _)). apply U. exact Hj.
+  Qed.
+
   (* state of the fix-up loop *)
   Definition FixSt (h : heap) (root : Z) (l : list Z) (z : Z) : Prop :=
     Good h root l /\ In z l /\ hred h NIL = false.
